@@ -281,6 +281,9 @@ fn programs() -> Vec<Program> {
         p.setup = Setup { weight: 4, queue: 1, counters: 1, ..Setup::default() };
         v.push(p);
     }
+    // a second life that starts with another put variant than the first
+    v.push(mk("burst: put a;delete a;put_ttl a;delete a /queue1", 1, vec![], vec![vec![put(1, 2), del(1), put_ttl(1, 3, 5000), del(1)]]));
+    v.push(mk("burst: put_ttl a;delete a;put a;delete a;put_ttl a /queue2", 2, vec![], vec![vec![put_ttl(1, 2, 5000), del(1), put(1, 3), del(1), put_ttl(1, 4, 5000)]]));
     v.push(mk("bursts: put a;await || put b;poll_once;await /queue1", 1, vec![], vec![vec![put(1, 2), Op::Await { call: 0 }], vec![put(2, 2), Op::PollOnce { call: 0 }, Op::Await { call: 0 }]]));
     v
 }
